@@ -114,21 +114,21 @@ struct Owned {
     h: Box<dyn HandleDyn>,
 }
 
-fn ledger_begin(id: u32, live_delta: i32) {
+pub fn ledger_begin(id: u32, live_delta: i32) {
     ctx::with_ctx(|c| {
         *c.ledger.live.entry(id).or_insert(0) += live_delta;
         *c.ledger.in_flight.entry(id).or_insert(0) += 1;
         *c.ledger.version.entry(id).or_insert(0) += 1;
     });
 }
-fn ledger_end(id: u32, live_delta: i32) {
+pub fn ledger_end(id: u32, live_delta: i32) {
     ctx::with_ctx(|c| {
         *c.ledger.live.entry(id).or_insert(0) += live_delta;
         *c.ledger.in_flight.entry(id).or_insert(0) -= 1;
         *c.ledger.version.entry(id).or_insert(0) += 1;
     });
 }
-fn ledger_state(id: u32) -> (i32, i32, u64, u32) {
+pub fn ledger_state(id: u32) -> (i32, i32, u64, u32) {
     ctx::with_ctx(|c| (c.ledger.live.get(&id).copied().unwrap_or(0), c.ledger.in_flight.get(&id).copied().unwrap_or(0), c.ledger.version.get(&id).copied().unwrap_or(0), c.ledger.destroyed_count(id))).unwrap_or((0, 0, 0, 0))
 }
 
